@@ -31,6 +31,13 @@ Theorem C11_prune_sound_single : forall lt o st k c vs,
 Proof. exact prune_sound_single. Qed.
 Print Assumptions C11_prune_sound_single.
 
+Theorem C11_prune_sound_forall_consts_refuted :
+  exists lt o st cs vs v k c,
+    should_prune lt st cs = Ok true /\ stats_describe o st vs /\ conv_monotone_on lt o st /\
+    In (Some v) vs /\ In (CVal k c) cs /\ conv lt v = c.
+Proof. exact prune_sound_forall_consts_refuted. Qed.
+Print Assumptions C11_prune_sound_forall_consts_refuted.
+
 Theorem C11_prune_sound_hyps_sat :
   should_prune i32 st_ex [CVal (KInt i32) 7] = Ok true /\
   stats_describe OSigned st_ex [Some 20%Z; None; Some 25%Z; Some 30%Z].
@@ -105,6 +112,13 @@ Proof. exact projection_commutes. Qed.
 Print Assumptions C11_projection_commutes.
 
 (* ---- glob expansion ---- *)
+(* the loop of poll_expand as written (model `run`: a stack of directory handles, one unit of fuel per
+   iteration) terminates and returns exactly `expand`, the function the theorems below speak about *)
+Theorem C11_expand_stack_is_expand : forall m root segs,
+  exists fuel, forall k, expand_stack m (fuel + S k) root segs = Some (expand m root segs).
+Proof. exact expand_stack_is_expand. Qed.
+Print Assumptions C11_expand_stack_is_expand.
+
 (* exact for patterns without `**`: every matching file exactly once, nothing else *)
 Theorem C11_glob_exact_nodstar : forall m root segs, nodstar segs -> wf root ->
   NoDup (expand m root segs) /\ (forall p, In p (expand m root segs) <-> matches m root segs p).
@@ -115,6 +129,25 @@ Theorem C11_glob_exact_hyps_sat :
   nodstar [star_csv] /\ wf tree_w /\ expand m_w tree_w [star_csv] = [[1%N]].
 Proof. exact glob_exact_hyps_sat. Qed.
 Print Assumptions C11_glob_exact_hyps_sat.
+
+(* also exact when the only `**` is the LAST segment (okp: every segment but the last is not `**`):
+   together with the refutations below, the walk is exact precisely outside the class
+   "`**` followed by another segment" *)
+Theorem C11_glob_exact_dstar_last : forall m root segs, okp segs -> wf root ->
+  NoDup (expand m root segs) /\ (forall p, In p (expand m root segs) <-> matches m root segs p).
+Proof. exact glob_exact_dstar_last. Qed.
+Print Assumptions C11_glob_exact_dstar_last.
+
+Theorem C11_glob_dstar_last_hyps_sat : okp [star_csv; dd] /\ okp [dd] /\ wf tree_w /\
+  expand m_w tree_w [dd] = [[1]; [2; 3]; [2; 4; 5]; [2; 4; 6; 7]]%N.
+Proof. exact glob_dstar_last_hyps_sat. Qed.
+Print Assumptions C11_glob_dstar_last_hyps_sat.
+
+(* for EVERY pattern, `**` anywhere included, only matching files are returned (the refuted
+   patterns below omit or repeat files, they never return a wrong one) *)
+Theorem C11_glob_sound_all : forall m root segs p, In p (expand m root segs) -> matches m root segs p.
+Proof. exact glob_sound_all. Qed.
+Print Assumptions C11_glob_sound_all.
 
 (* REFUTED for `**` followed by another segment (DESIGN §5-12): `d/**/*.csv` omits d/a.csv ... *)
 Theorem C11_glob_exact_refuted_missing :
